@@ -133,10 +133,10 @@ def emissions_of(path_evs: list[Ev], program: Program, aliases: dict[str, str]) 
                     len(em) == 1 and em[0].kind == "E" and em[0].cls == "?" and em[0].args and em[0].args[0].startswith("$elem(")
                     for em in inner
                 ) and bool(inner)
-                try:
-                    call = ast.parse(iter_text, mode="eval").body
-                    args = [apply_aliases(render(a), aliases) for a in call.args]
-                except SyntaxError:
+                it_term = e.extra.get("iter_term")
+                if isinstance(it_term, ast.Call):
+                    args = [apply_aliases(render(a), aliases) for a in it_term.args]
+                else:
                     args = []
                 out.append(Emission("G" if ok else "G?", gen, args, {}, e.node, inner=inner, iter=iter_text))
             elif any(em for em in inner):
